@@ -54,6 +54,9 @@ func runHistory(env *px.Env, org *origin.Origin, site *origin.Site, c HistCase, 
 			for _, l := range c.Fresh.Expires {
 				ver.Headers = append(ver.Headers, origin.HV{K: "Expires", V: l})
 			}
+			if c.Fresh.Date != "" {
+				ver.Headers = append(ver.Headers, origin.HV{K: "Date", V: c.Fresh.Date})
+			}
 		}
 		return ver
 	}
